@@ -36,7 +36,7 @@ Conv1(kind, v) ==
          ELSE IF v[1] \in {"str", "arr", "map", "time"} THEN <<"err">> ELSE <<"u">>
     [] kind = "bool" -> IF v[1] = "bool" THEN <<"ok", v>> ELSE <<"u">>
     [] kind = "big" -> IF v[1] = "num" THEN <<"ok", v>> ELSE IF v[1] \in {"str", "arr", "map", "time", "bool"} THEN <<"err">> ELSE <<"u">>
-    [] kind = "time" -> IF v[1] = "time" THEN <<"ok", v>> ELSE IF v[1] = "null" THEN <<"u">> ELSE <<"err">>
+    [] kind = "time" -> IF v[1] = "time" THEN <<"ok", v>> ELSE <<"err">>          \* identical type only; null is not a time
     [] kind \in {"strs", "ints", "anys"} ->
          IF v[1] # "arr" THEN (IF v[1] = "null" THEN <<"u">> ELSE <<"err">>)
          ELSE LET ek == CASE kind = "strs" -> "string" [] kind = "ints" -> "int" [] OTHER -> "any"
